@@ -1172,7 +1172,7 @@ func ruleEmitterPayloads(p *Prog, r *Out) {
 	ems := []em{
 		{"(*serverConn).writeWindowUpdate", []need{{"(*WindowUpdate).SetIncrement", "inc"}, {"(*FrameHeader).SetBody", "wu"}}, "(*serverConn).write"},
 		{"(*serverConn).writeReset", []need{{"(*RstStream).SetCode", "code"}, {"(*FrameHeader).SetBody", "r"}}, "(*serverConn).write"},
-		{"(*serverConn).writeGoAway", []need{{"(*GoAway).SetStream", "strm"}, {"(*GoAway).SetCode", "code"}, {"(*GoAway).SetData", "[]byte(message)"}, {"(*FrameHeader).SetBody", "ga"}}, "(*serverConn).write"},
+		{"(*serverConn).writeGoAway", []need{{"(*GoAway).SetStream", "last"}, {"(*GoAway).SetCode", "code"}, {"(*GoAway).SetData", "[]byte(message)"}, {"(*FrameHeader).SetBody", "ga"}}, "(*serverConn).write"},
 		{"(*serverConn).handlePing", []need{{"(*Ping).SetAck", "true"}, {"(*Ping).SetData", "ping.Data()"}, {"(*FrameHeader).SetBody", "ack"}}, "(*serverConn).write"},
 		{"(*serverConn).writePing", []need{{"(*FrameHeader).SetBody", "ping"}}, "(*serverConn).write"},
 		{"(*Conn).updateWindow", []need{{"(*WindowUpdate).SetIncrement", "size"}, {"(*FrameHeader).SetBody", "wu"}}, "(*Conn).writeOut"},
@@ -1960,7 +1960,11 @@ func init() {
 				}
 			}
 			r.check(announces && made, "the write loop's goroutine announces that it has left", pos, "sc.writeGone = make(chan struct{}); defer close(sc.writeGone) around writeLoop", "the goroutine that runs the write loop no longer closes writeGone when the loop leaves (also on a write error or a panic): the stream loop and the read loop stay parked trying to queue frames nobody takes, and Serve never returns")
-			if wf := p.decl("(*serverConn).write"); wf != nil {
+			wf := p.decl("(*serverConn).enqueue")
+			if wf == nil {
+				wf = p.decl("(*serverConn).write")
+			}
+			if wf != nil {
 				r.fn("(*serverConn).write")
 				arms := map[string]bool{}
 				nArms := 0
